@@ -205,6 +205,9 @@ impl LayerContents {
             Err(NamingError::Missing(old.into()))
         } else if new == DEFAULT_LAYER_NAME && self.layers[0].name != old {
             Err(NamingError::ReservedName)
+        } else if self.layers[0].name == new && self.layers[0].name != old {
+            // The default layer cannot be removed, so it cannot be overwritten either.
+            Err(NamingError::Duplicate(new.to_string()))
         } else {
             let name = Name::new(new)?;
             // Renaming a layer to its own name must not remove it.
